@@ -21,7 +21,7 @@ src: array.c
 enforce: spif_array_append
 backend: sat
 */
-#define VERIF_REALLOC_ELEM_T spif_obj_t
+#define VA_ELEM_T spif_obj_t
 #include "vprelude.h"
 #include "env_array.h"
 #include "array.h"
